@@ -6,6 +6,22 @@
 
 package py
 
+// Largest number of items a sequence built by repetition may have: a
+// longer one could not be allocated
+const maxRepeatLen = 1 << 40
+
+// repeatLen returns the number of items of a sequence of m items
+// repeated n times: 0 for n <= 0, MemoryError if there would be too many
+func repeatLen(m int, n Int) (int, error) {
+	if n <= 0 || m == 0 {
+		return 0, nil
+	}
+	if int64(n) > int64(maxRepeatLen/m) {
+		return 0, ExceptionNewf(MemoryError, "repeated sequence is too long")
+	}
+	return int(n) * m, nil
+}
+
 // Converts a sequence object v into a Tuple
 func SequenceTuple(v Object) (Tuple, error) {
 	switch x := v.(type) {
